@@ -138,7 +138,7 @@ PROPS["C09"] = {"fn": c09, "level": "other",
     "note": "Equality of the answers of the two regex-automata calls (is_match / search / captures) is the dependency's contract.",
     "explanation": "Every match on RegexImpl in impl Regex is enumerated; each vm::run call and wrapped-regex call is compared argument by argument with the entry point's own parameters; both iterator bodies are path-enumerated against one obligation set."}
 PROPS["C10"] = {"fn": c10, "level": "other",
-    "technique": "structured path enumeration of Split::next / SplitN::next with must-pass-through obligations",
+    "technique": "structured path enumeration of Split::next / SplitN::next with must-pass-through obligations; SplitN's countdown decided by constant propagation under a case split of the remaining limit",
     "claim": "Decides the shape of the split state machines on every path: piece = target[next_start..m.start()] then next_start = m.end(); remainder target[next_start..len] once, then a sentinel beyond len; errors passed through; SplitN: limit==0 first, decrement before the limit>0 test, delegate to Split::next, last piece is the untouched remainder. Piece boundaries for concrete inputs are not decided.",
     "note": "Relies on C08 for the matches themselves; next_start <= m.start() follows from the End-arm cap start >= search position (checked here) and the iterator searching from last_end >= previous end.",
     "explanation": "All paths of both next() bodies are enumerated; each class of path (exhausted/remainder/match/error; zero/delegate/last/done) must exist and satisfy its obligations."}
@@ -217,7 +217,7 @@ def c07(run, ctx):
 
 
 PROPS["C07"] = {"fn": c07, "level": "other",
-    "technique": "must-pass-through over the interpreter's backtrack tail (path facts + difference constraints), per-arm obligations on the four counted-repeat opcodes, compile_repeat template/guard rule, transfer-function soundness of min_size (XFER)",
+    "technique": "must-pass-through over the interpreter's backtrack tail (path facts + difference constraints), the four counted-repeat opcodes decided by constant propagation under a case split of (count, lo, hi, empty iteration) over their enumerated paths, compile_repeat template/guard rule, transfer-function soundness of min_size (XFER)",
     "claim": "Decides structurally: every resumed branch is counted once and compared with the user's backtrack_limit so that the error is returned iff the count after the increment exceeds the limit; the branch stack is capped in State::push and vm::run passes a sane cap; the four Repeat*/RepeatEpsilon* arms implement hi-exit, empty-iteration guard, count+1, lo test and greedy/lazy order; every loop the compiler emits is counter-bounded, guarded by the empty-iteration check, or has a body the path condition proves non-empty; min_size is a true lower bound. Exact step counts and 'a tiny search never errors' as a numeric statement are not decided.",
     "note": "Termination of a single delegate search is regex-automata's contract.",
     "explanation": "The statements after the inner 'fail loop of vm::run are path-enumerated with branch conditions as facts; each repeat arm is path-enumerated against its obligation table; compile_repeat branches are checked against template kinds."}
@@ -452,7 +452,7 @@ PROPS["C01"] = {"fn": c01, "level": "other",
     "note": _SHAPE_NOTE + " The behavioural statement (equality with a reference backtracker over all patterns and texts) is outside static reach.",
     "explanation": "Each compile-side builder is interpreted into symbolic templates; each interpreter arm is path-enumerated against its obligations; tables are compared between compiler and VM."}
 PROPS["C02"] = {"fn": c02, "level": "other",
-    "technique": "slot-layout linear forms (SLOT), group template, undo-log obligations (STATE/OWN), counting agreement parser <-> analyser",
+    "technique": "slot-layout linear forms (SLOT), group template, undo-log obligations (STATE/OWN), counting agreement parser <-> analyser, counted-repeat opcodes by case-split constant propagation",
     "claim": "One capture-slot layout agreed by the writer and all readers: Save(2g)/Save(2g+1) around group bodies, Delegate copy loop with the +1 shift for the delegate's group 0 and the unset fill for unmatched inner groups, Captures::get/len/truncate, n_groups; group numbers follow opening-parenthesis order (parser counts exactly the Group-producing branches, analyser counts in the Group arm before visiting); nothing left over from abandoned alternatives reduces to the undo-log discipline (shared with C20); the counted-repeat arms of the VM (store the count before a lazy loop pushes its next iteration) and the compiler's choice among them are decided with the repeat rules shared with C07. Which iteration's span is reported for an input is not decided.",
     "note": _SHAPE_NOTE,
     "explanation": "Index expressions that address saves are reduced to linear forms a*g+b and compared with the layout; State methods are path-enumerated."}
@@ -462,7 +462,7 @@ PROPS["C03"] = {"fn": c03, "level": "other",
     "note": _SHAPE_NOTE,
     "explanation": "Tables are extracted from the match arms of to_str, Analyzer::visit, Assertion::is_hard and the VM and compared row by row; predicates are extracted from the take_while closures."}
 PROPS["C12"] = {"fn": c12, "level": "other",
-    "technique": "sibling agreement of the two writers, obligation table for Expander::check, constructor ownership, scanner alternative order, panic audit of the expansion code",
+    "technique": "sibling agreement of the two writers (per-arm path outcomes), Expander::check decided by constant propagation under a case split of (number, named groups present, group count), constructor ownership, scanner alternative order per path, panic audit of the expansion code",
     "claim": "Narrow structural claim: std and no-std writers are identical modulo the write primitive and implement 'named group, else group whose number the name spells, else nothing'; Expander::check accepts a numeric reference only if 0 or (no named groups and < captures_len) and a named one only if it exists; Expander is only constructed with a one-byte substitution character and non-empty delimiters (which makes `$$`-skip and escape's doubling inverse); the scanner tries doubled char, delimited/undelimited name, number, fallback in the documented order; no unaudited panic site in the expansion code. The scanner's string semantics for concrete templates (longest identifier etc. inside parse_id) is not decided.",
     "note": _SHAPE_NOTE,
     "explanation": "Closures of both writers are canonicalised with the write primitive abstracted and compared; other obligations are matched on canonical HIR."}
@@ -472,7 +472,7 @@ PROPS["C13"] = {"fn": c13, "level": "other",
     "note": "Grid: child length sets over {0,1,2}, lo/hi in {0,1,2,MAX}; lengths capped at 7. Expr::Delegate's size field is trusted as set by the parser. " + _SHAPE_NOTE,
     "explanation": "A small abstract interpreter over the HIR of each arm (no repository code runs) yields formulas over child facts; they are evaluated against the reference semantics on every valuation of the grid."}
 PROPS["C16"] = {"fn": c16, "level": "other",
-    "technique": "counting agreement parser/analyser/wrap_tree, slot-layout rules for captures_len / len / get / truncate, names API shapes",
+    "technique": "counting agreement parser/analyser/wrap_tree, slot-layout rules for captures_len / len / get / truncate, names API shapes, to_str's print tables decided by constant propagation under a case split of (lo, hi, greedy, precedence, casei)",
     "claim": "Group metadata is consistent by construction: exactly the three Group-producing branches of parse_group increment curr_group (once, before parsing the body) and names are recorded with the new number; the analyser increments group_ix only in the Group arm before visiting; wrap_tree contributes exactly one group in front; n_groups = end_group, truncate(n_groups*2), len = saves/2, get reads (2i, 2i+1) and answers None beyond; capture_names is sized by captures_len and indexed by group number; name(n) = get(index of n); iter yields get(0..len).",
     "note": "The Wrap side (regex-automata group info) is the dependency's contract; equality of the two engines' counts follows from to_str printing Group as a plain capture group (ENC). " + _SHAPE_NOTE,
     "explanation": "Paths of parse_group are enumerated per result kind; Info/Regex/Captures accessors are matched on canonical HIR."}
